@@ -15,7 +15,7 @@ use parking_lot::Mutex;
 use swimos_api::address::RelativeAddress;
 use swimos_runtime::downlink::failure::{AlwaysAbortStrategy, AlwaysIgnoreStrategy, ReportStrategy};
 use swimos_runtime::downlink::{
-    AttachAction, DownlinkOptions, DownlinkRuntimeConfig, IdentifiedAddress, MapDownlinkRuntime, ValueDownlinkRuntime,
+    AttachAction, DownlinkOptions, DownlinkRuntimeConfig, IdentifiedAddress, MapDownlinkRuntime, NoInterpretation, ValueDownlinkRuntime,
 };
 use swimos_utilities::byte_channel::byte_channel;
 use swimos_utilities::trigger;
@@ -197,7 +197,20 @@ pub fn run_case(cfg: &Config, script: &[Step], rng: &mut Rng) -> Obs {
                         tokio::spawn(Jitter::new(run, jr, cfg.jitter))
                     }};
                 }
+                // the pass-through variant (its interpretation cannot fail: the strategy is never asked)
+                macro_rules! spawn_passthrough {
+                    ($strategy:expr) => {{
+                        let r = MapDownlinkRuntime::with_interpretation(att_rx, (req_tx, resp_rx), stop_rx, address, config, $strategy, NoInterpretation);
+                        let run = async move {
+                            r.run().await;
+                            *re.lock() = Some((ticket(), now_ms()));
+                        };
+                        tokio::spawn(Jitter::new(run, jr, cfg.jitter))
+                    }};
+                }
                 match cfg.strategy {
+                    _ if cfg.passthrough && cfg.consumers.len() % 2 == 0 => spawn_passthrough!(AlwaysAbortStrategy),
+                    _ if cfg.passthrough => spawn_passthrough!(AlwaysIgnoreStrategy),
                     Strategy::Abort => spawn_map!(AlwaysAbortStrategy),
                     Strategy::ReportAbort => spawn_map!(ReportStrategy::new(AlwaysAbortStrategy)),
                     Strategy::BoxedReportAbort => spawn_map!(ReportStrategy::new(AlwaysAbortStrategy).boxed()),
@@ -243,7 +256,7 @@ pub fn run_case(cfg: &Config, script: &[Step], rng: &mut Rng) -> Obs {
                     let wlog: SharedWriter = Arc::new(Mutex::new(WriterLog::default()));
                     let drop_signal = Arc::new(Notify::new());
                     let reader = tokio::spawn(Jitter::new(
-                        consumer_reader(kind, PacedReader::new(note_rx, ctl.clone(), rng.fork()), log.clone(), drop_signal.clone()),
+                        consumer_reader(kind, cfg.passthrough, PacedReader::new(note_rx, ctl.clone(), rng.fork()), log.clone(), drop_signal.clone()),
                         rng.fork(),
                         cfg.jitter,
                     ));
